@@ -399,6 +399,63 @@ fn ring<G: Send>(g: G, n_threads: usize, schedule: &[usize], step: fn(&mut G) ->
     })
 }
 
+/// All threads start the *same* calculation on the *same* shared map at the same instant (std barrier, then a spin
+/// barrier), on a map this process has never seen: whatever a first use of a value fills lazily (a table, a memo, a
+/// once-cell) is filled by several threads at once. The sequential reference is computed afterwards.
+fn case_first_use(t: &mut Tape, info: &mut CaseInfo) -> Result<(), String> {
+    let (w, jobs) = gen_world(t);
+    let n_threads = t.range(2, 8) as usize;
+    // the distinct (map, kind, mode, settings) jobs of the world, each run once by every thread
+    let mut rounds: Vec<Job> = Vec::new();
+    for j in &jobs {
+        if rounds.len() < 6 && j.kind != 0 && !rounds.iter().any(|r| (r.map, r.kind, r.mode, r.d) == (j.map, j.kind, j.mode, j.d)) {
+            rounds.push(Job { yields: 0, spin: 0, ..j.clone() });
+        }
+    }
+    if info.want_sample {
+        info.sample = Some(json!({"maps": w.specs.iter().map(MapSpec::sample).collect::<Vec<_>>(), "rounds": format!("{rounds:?}").chars().take(600).collect::<String>(), "threads": n_threads}));
+    }
+    let barrier = std::sync::Barrier::new(n_threads);
+    let arrived = AtomicUsize::new(0);
+    let per_thread: Vec<Vec<String>> = std::thread::scope(|s| {
+        let handles: Vec<_> = (0..n_threads)
+            .map(|_| {
+                let (w, rounds, barrier, arrived) = (&w, &rounds, &barrier, &arrived);
+                s.spawn(move || {
+                    let mut out = Vec::with_capacity(rounds.len());
+                    for (r, job) in rounds.iter().enumerate() {
+                        barrier.wait();
+                        arrived.fetch_add(1, Ordering::AcqRel);
+                        let target = (r + 1) * n_threads;
+                        let mut spins = 0u32;
+                        while arrived.load(Ordering::Acquire) < target && spins < 2_000_000 {
+                            std::hint::spin_loop();
+                            spins += 1;
+                        }
+                        out.push(run_job(w, &w.maps[job.map], job));
+                    }
+                    out
+                })
+            })
+            .collect();
+        handles.into_iter().map(|h| h.join().expect("worker thread panicked")).collect()
+    });
+    for (r, job) in rounds.iter().enumerate() {
+        let seq = run_job(&w, &w.maps[job.map], job);
+        for (th, out) in per_thread.iter().enumerate() {
+            info.comparisons += 1;
+            if out[r] != seq {
+                return Err(format!("round #{r} {job:?}: thread {th} of {n_threads} starting the same calculation at the same instant got a result that differs from the sequential run afterwards ({:?} vs {seq:?})", out[r].chars().take(120).collect::<String>()));
+            }
+        }
+    }
+    info.label(format!("threads={}", if n_threads <= 4 { "2-4" } else { "5-8" }));
+    info.label(format!("rounds={}", rounds.len()));
+    info.nontrivial = rounds.iter().any(|j| j.kind >= 2 && j.kind != 6);
+    info.set_key(&format!("{:?}{rounds:?}{n_threads}", w.specs));
+    Ok(())
+}
+
 pub fn property() -> Property {
     Property {
         id: "C20",
@@ -410,6 +467,15 @@ pub fn property() -> Property {
                 thorough: 25_000,
                 tape_len: 3400,
                 f: case_pool,
+                direct: None,
+            },
+            SubCheck {
+                name: "simultaneous-first-use",
+                rule: "the worlds of the first sub-check; up to 6 distinct jobs (convert_ref, difficulty, strains, performance, gradual drain, bpm, generic calculate) are each started by 2-8 threads at the same instant (std barrier followed by a spin barrier) on the same shared map, which this process has not seen before, so that whatever is filled lazily on first use is filled by several threads at once. Oracle: every thread's result equals the sequential run performed afterwards (all fields). Non-trivial: at least one calculating job.",
+                quick: 1500,
+                thorough: 25_000,
+                tape_len: 3400,
+                f: case_first_use,
                 direct: None,
             },
             SubCheck {
